@@ -311,7 +311,9 @@ func c06eval(rc recCase) *Violation {
 
 var c06msgs = []string{"m", "short message", strings.Repeat("x", 36), strings.Repeat("x", 37), strings.Repeat("y", 16), strings.Repeat("y", 60),
 	"  leading", "trailing  ", "in  ner", "", " ", "h\xc3\xa9llo w\xc3\xb6rld \xe4\xb8\x96\xe7\x95\x8c", "l1\nl2", "l1\nl2\nl3", "l1\n\nl3", "\nl2", "l1\n", "l1\nl2\n", "l1\n\n",
-	"a <b>bold</b> word", "<b>unbalanced", "a & b < c > d", "<font color=\"red\">x</font>", "tab\there", "bell\a", "cr\rhere", "nul\x00", "emoji \U0001F600 end"}
+	"a <b>bold</b> word", "<b>unbalanced", "a & b < c > d", "<font color=\"red\">x</font>", "tab\there", "bell\a", "cr\rhere", "nul\x00", "emoji \U0001F600 end",
+	// markup in the continuation lines (exactly one continuation line, several, a tag that spans a line break)
+	"l1\na <b>bold</b> second line", "l1\nl2 <font color=\"red\">x</font>\nl3 <u>u</u>", "<b>first\nsecond</b>", "l1\n<i>unbalanced"}
 
 func c06cases(thorough bool, emit func(rc recCase)) {
 	base := recCase{Format: "color", MsgQ: qk("m"), Level: int(slog.InfoLevel)}
